@@ -103,11 +103,15 @@ HS_ACTS = ["hs p=%d k=%d nonce=%s" % (p, k, n) for p in (1, 2) for k in (0, 1, 2
 
 def hs_random(rng, n):
     out = []
+    # configured bootstrap peers with a pinned identity: the pinned key with work that does not verify, at once and after the cooldown
+    for cd in (0, 5):
+        out.append(["reset mode=hs cooldown=%d diff=8 npeers=2 boot=1" % cd, "hs p=1 k=1 nonce=bad", "hs p=1 k=1 nonce=rand", "hs p=2 k=1 nonce=bad", "hs p=2 k=1 nonce=bad",
+                    "adv ms=%d" % (cd * 1000 + 1), "hs p=1 k=1 nonce=bad", "hs p=1 k=2 nonce=bad", "hs p=1 k=1 nonce=solved", "hs p=2 k=0 bad=1 nonce=rand", "tick", "hs p=2 k=1 nonce=rand"])
     for _ in range(n):
         cd = rng.choice([0, 1, 2, 2, 5, 5, 30])
         npeers = rng.choice([1, 2, 3])
         diff = rng.choice([8, 8, 8, 10, 0])
-        lines = ["reset mode=hs cooldown=%d diff=%d npeers=%d" % (cd, diff, npeers)]
+        lines = ["reset mode=hs cooldown=%d diff=%d npeers=%d%s" % (cd, diff, npeers, " boot=1" if rng.random() < 0.3 else "")]
         now, marks = 0, []
         for _ in range(rng.randint(2, 30)):
             x = rng.random()
